@@ -32,17 +32,38 @@ type qCase struct {
 	Subset  []uint64 `json:"subset"`
 }
 
+// qEnc: how the quorum engine writes an abstract member id as bytes. Member ids are opaque byte strings of any length;
+// the encoders are injective, so the Go functions must behave as on the abstract ids whatever the shape.
+var qEnc = idBytes
+
+var qEncoders = []func(uint64) primitives.MemberId{
+	idBytes,
+	func(n uint64) primitives.MemberId { // very short ids that differ only by trailing zero bytes
+		b := []byte{byte(1 + (n/3)%250), byte(n / 750)}
+		if n/750 == 0 {
+			b = b[:1]
+		}
+		return primitives.MemberId(append(b, make([]byte, n%3)...))
+	},
+	func(n uint64) primitives.MemberId { // long ids that share their first 20 bytes
+		return primitives.MemberId(fmt.Sprintf("PPPPPPPPPPPPPPPPPPPP%08d", n))
+	},
+	func(n uint64) primitives.MemberId { // 32-byte ids that differ in the first bytes only
+		return primitives.MemberId(fmt.Sprintf("%08d************************", n))
+	},
+}
+
 func mkMembers(ids, ws []uint64) []interfaces.CommitteeMember {
 	ms := make([]interfaces.CommitteeMember, len(ids))
 	for i := range ids {
-		ms[i] = interfaces.CommitteeMember{Id: idBytes(ids[i]), Weight: primitives.MemberWeight(ws[i])}
+		ms[i] = interfaces.CommitteeMember{Id: qEnc(ids[i]), Weight: primitives.MemberWeight(ws[i])}
 	}
 	return ms
 }
 func mkIds(ids []uint64) []primitives.MemberId {
 	r := make([]primitives.MemberId, len(ids))
 	for i, x := range ids {
-		r[i] = idBytes(x)
+		r[i] = qEnc(x)
 	}
 	return r
 }
@@ -274,6 +295,7 @@ func runQuorum(cfg *runCfg) error {
 	var cases []string
 	distinct := map[string]bool{}
 	for i := 0; i < n; i++ {
+		qEnc = qEncoders[r.Intn(len(qEncoders))]
 		size := 1 + r.Intn(12)
 		if r.Intn(8) == 0 {
 			size = 13 + r.Intn(52)
